@@ -394,26 +394,5 @@ fn holders_in_slice_body() {
 #[cfg(kani)] #[kani::proof] #[kani::unwind(8)] fn holders_in_slice() { holders_in_slice_body() }
 #[cfg(all(not(kani), psc_verif_replay))] #[test] fn replay_holders_in_slice() { vk::load_replay(); holders_in_slice_body() }
 
-// ---- C02/C09: element-wise Vec decode across more than one preallocation chunk ---------------------------------
-/// 8 KiB element (two per 16 KiB chunk) encoded as a single byte
-pub struct Big([u8; 8192]);
-impl Decode for Big {
-    fn decode<I: Input>(input: &mut I) -> Result<Self, Error> { let b = input.read_byte()?; Ok(Big([b; 8192])) }
-}
-fn vec_multichunk_body() {
-    let bytes: [u8; 6] = [vk::any_u8(), vk::any_u8(), vk::any_u8(), vk::any_u8(), vk::any_u8(), vk::any_u8()];
-    vk::assume(bytes[0] == 3 * 4);   // compact count 3: one full chunk of two elements plus a second chunk of one
-    let n = (bytes[0] >> 2) as usize;
-    let mut inp: &[u8] = &bytes[..];
-    match <Vec<Big>>::decode(&mut inp) {
-        Ok(v) => {
-            assert!(v.len() == n, "decoded vector has a different length than its prefix announces");
-            assert!(inp.len() == 5 - n, "decode left a different number of bytes unread");
-            let mut i = 0;
-            while i < n { assert!(v[i].0[0] == bytes[1 + i] && v[i].0[8191] == bytes[1 + i], "element differs"); i += 1; }
-        }
-        Err(_) => assert!(false, "valid multi-chunk vector rejected"),
-    }
-}
-#[cfg(kani)] #[kani::proof] #[kani::unwind(8)] fn vec_multichunk() { vec_multichunk_body() }
-#[cfg(all(not(kani), psc_verif_replay))] #[test] fn replay_vec_multichunk() { vk::load_replay(); vec_multichunk_body() }
+// (a multi-chunk element-wise Vec decode harness -- 8 KiB elements, three items -- was tried for C02/C09 and exceeds the
+// CBMC budget (900 s / 6 GB): the chunk loop is decided by Verus only, see verus/60_seq.rs.in)
